@@ -591,10 +591,11 @@ func DeleteConflicts(uuid dvid.UUID, data DataService, oldParents, newParents []
 			}
 			if !bytes.Equal(curTK, batchTK) {
 				// Get conflicts.
+				// On an error the key is skipped, but the batch must still be closed: going
+				// back to the channel here would wait forever once the scan has ended.
 				toDelete, err := kvv.FindConflicts(parentsV)
 				if err != nil {
 					dvid.Errorf("Error finding conflicts: %v\n", err)
-					continue
 				}
 
 				// Create new node if necessary to apply deletions, and if so, store new node.
